@@ -1,6 +1,7 @@
 // C09 harness: removeoverlaps() and the scan-line constraint generators.
 //   h_rect recs <sets.txt> <out.json> [chunk]   sets.txt: "n bx by (x X y Y)*n" per line (integers)
-//   h_rect gen <count> <seed> <out.txt> <maxn>
+//   h_rect gen <count> <seed> <out.txt> <maxn> [<minn>]
+//   h_rect recs <in.txt> <out.json> <chunk> [nogen]
 #include "vtrace.h"
 #include <fstream>
 #include <set>
@@ -35,7 +36,7 @@ int main(int argc, char **argv)
         vt::Rng rng(strtoull(argv[3], 0, 10)); int maxn = atoi(argv[5]);
         FILE *f = fopen(argv[4], "w");
         for (int i = 0; i < atoi(argv[2]); i++) {
-            int n = rng.range(2, maxn);
+            int n = rng.range(argc > 6 ? atoi(argv[6]) : 2, maxn);
             int kind = rng.range(0, 4);
             int span = kind == 0 ? 6 : kind == 1 ? 20 : 60;
             int bx = rng.coin(1, 4) ? rng.range(1, 2) : 0, by = rng.coin(1, 4) ? rng.range(1, 2) : 0;
@@ -58,6 +59,7 @@ int main(int argc, char **argv)
     vt::Out out(argv[3]);
     out.line(std::string("{\"chunk\":") + (argc > 4 ? argv[4] : "40") + ",\"recs\":[");
     vt::Rng rng(vt::envSeed());
+    bool nogen = argc > 5 && std::string(argv[5]) == "nogen";   // very large sets: the generator clause (an all-pairs longest-path closure) is left to the smaller sets
     int n, bx, by; bool first = true;
     while (in >> n >> bx >> by) {
         std::vector<std::vector<int> > R(n, std::vector<int>(4));
@@ -65,7 +67,9 @@ int main(int argc, char **argv)
         Rectangle::setXBorder(bx); Rectangle::setYBorder(by);
         vt::J j; j.obj().k("n").i(n).k("S").i((long long)S).k("b2").arr().i(2 * bx).i(2 * by).end();
         j.k("rin2").arr(); for (auto &r : R) j.arr().i(2 * r[0]).i(2 * r[1]).i(2 * r[2]).i(2 * r[3]).end(); j.end();
-        {
+        j.k("gen").b(!nogen);
+        if (nogen) { j.k("cxn").arr().end().k("cx").arr().end().k("cy").arr().end(); }
+        else {
             Rectangles rs; for (auto &r : R) rs.push_back(new Rectangle(r[0], r[1], r[2], r[3]));
             try {
                 consJson(j, "cxn", rs, 1, true); consJson(j, "cx", rs, 1, false); consJson(j, "cy", rs, 2, false);
@@ -75,6 +79,7 @@ int main(int argc, char **argv)
         // fixed subsets: all of them for n <= 3, otherwise {} and two random ones
         std::vector<std::set<unsigned> > subsets;
         if (n <= 3) { for (unsigned m = 0; m < (1u << n); m++) { std::set<unsigned> s; for (int b = 0; b < n; b++) if (m >> b & 1) s.insert(b); subsets.push_back(s); } }
+        else if (nogen) subsets.push_back({});            // very large sets: no fixed rectangles (the fixed clause's chain analysis is cubic)
         else { subsets.push_back({}); for (int t = 0; t < 2; t++) { std::set<unsigned> s; int k = rng.range(1, 3); for (int q = 0; q < k; q++) s.insert(rng.range(0, n - 1)); subsets.push_back(s); } }
         j.k("runs").arr();
         for (auto &fx : subsets) for (int third = 0; third < 2; third++) {
